@@ -8,7 +8,7 @@ EXPLANATION = (
     'All-paths rules over MIR: (r1) every call of Storage::update_last_state outside genesis init is reachable only on the '
     'accepting edge of a strict U256 comparison new > old whose operands derive from the candidate prove state\'s total '
     'difficulty and from Storage::get_last_state; (r2) the three stored values derive from that same prove state and the '
-    'stored difficulty is the compared value; (r3) the byte layout written by update_last_state / update_last_n_headers '
+    'stored difficulty is the compared value; (r3) the byte layout written by update_last_state / last_n_headers_value '
     'equals the layout read back by get_last_state / get_last_n_headers / get_cells_capacity (restart reproduces the tip); '
     '(r4) the child fast path is entered only after the child header was verified (PoW + own chain-root commitment), is a '
     'child of the proven header, is strictly heavier, and its parent chain root is tied to the proven parent.')
@@ -98,11 +98,11 @@ def run(ctx):
             if ('rangefrom', w) in layout.fact_set(c):
                 hit = True
     ctx.ob('C12.r3', CC.name, 'get_cells_capacity reads the tip header at the written offset', hit and bool(P.const_uses(CC, 'LAST_STATE_KEY')), writer_width=w)
-    WN = ctx.body('Storage::update_last_n_headers')
+    WN = ctx.body('Storage::last_n_headers_value')
     wn = layout.fact_set(WN)
     nw = [f[3] for f in wn if f[0] == 'bytes' and f[1] == 'to']
     if len(nw) != 1:
-        raise Inconclusive('update_last_n_headers: expected one integer->bytes conversion')
+        raise Inconclusive('last_n_headers_value: expected one integer->bytes conversion')
     nend = [f for f in wn if f[0] == 'bytes'][0][2]
     rec = nw[0] + 32
     RN = ctx.body('Storage::get_last_n_headers')
@@ -118,7 +118,10 @@ def run(ctx):
     child = ctx.sites(S, 'LightClientProtocol::update_prove_state_to_child', 1)
     ctx.guard('C12.r4', S, 'LightClientProtocol::check_verifiable_header', 'Ok', child)
     ctx.guard('C12.r4', S, 'ProveState::is_parent_of', 'true', child)
-    lts = [(b, k, t) for b, k, t in P.call_keys(S) if k in CMP]
+    # the comparison between the peer's previous and new last state (other U256 comparisons of the handler, e.g. with the stored
+    # total difficulty, are not this guard)
+    lts = [(b, k, t) for b, k, t in P.call_keys(S) if k in CMP
+           and not any(o[0] == 'call' and o[1].endswith('Storage::get_last_state') for a in t.args for o in sdu.origins(a, stop_at_calls=False))]
     ctx.floor('C12.r4', 'U256 comparison in SendLastStateProcess::execute', len(lts), 1)
     for b, k, t in lts:
         acc = {'lt': 'true', 'gt': 'true', 'le': 'false', 'ge': 'false'}[CMP[k]]
